@@ -125,7 +125,7 @@ RunClauses(in, out, keepWs) ==
       ro == Runs(out)
       ki == TagRuns(in)
       ko == TagRuns(out)
-  IN IF Len(ri) # Len(ro) \/ Len(ki) # Len(ko) THEN [match |-> FALSE, words |-> FALSE, keep |-> FALSE]
+  IN IF Len(ri) # Len(ro) \/ Len(ki) # Len(ko) THEN [match |-> FALSE, words |-> FALSE, keep |-> ~keepWs]   \* runs do not correspond (StructEq fails too)
      ELSE [match |-> \A i \in 1..Len(ri) : RunMatch(ri[i].atoms, Chars(ro[i].atoms)),
            \* "words are never joined, split, or dropped"
            words |-> \A i \in 1..Len(ri) : Words(Chars(ri[i].atoms)) = Words(Chars(ro[i].atoms)),
